@@ -50,6 +50,11 @@ ASSUMPTIONS = [
     "truthiness, Float from numeric string / bool) while rejecting them inline - KNOWN FINDING A8, pinned by tests/test_utilities/"
     "test_coerce_value.py; modelled faithfully (int_accepts_iff / float_accepts_iff), reported as cross-kind-scalar-accepted:* / "
     "inline-vs-variable-differs:*; Python `bool` is an `int`",
+    "value_from_ast hands a custom scalar that has its OWN parse_literal every kind of literal (guard re-extracted: scalarLiteralGuard_spec); the "
+    "stand-in scalar of build_schema (default_scalar) converts literals with _untyped_literal (numbers keep their SOURCE TEXT): inline `1` gives '1', "
+    "a variable 1 gives 1 - inline != variable for it whenever a number occurs. This was and is recorded as the hypothesis CustomAgree of "
+    "literal_variable_equiv with the machine-checked witness `not CustomAgree (Reg.ofTypes [Any])` (Props/C07_examples.lean), not as a finding: the "
+    "oracle claims equivalence for identity custom scalars on strings and booleans only; "
     "custom scalars are PARAMETERS of the model (`Reg.customParse` / `Reg.customParseLiteral`: arbitrary partial functions, nothing assumed): a value "
     "conforms iff the scalar's own parser produced it (`CustomOK`); `RegOK.customNotNone` (a parser never answers None to a non-null input) and, for "
     "literal/variable equivalence only, `CustomAgree` (the scalar's two parsers agree) are hypotheses about that user code, with witnesses that they "
@@ -312,8 +317,50 @@ def float_catches_overflow():
     return False
 
 
+VFA_PY = REPO / "src/py_gql/utilities/value_from_ast.py"
+
+
+def scalar_literal_guard():
+    """The test in front of `type_.parse_literal(node, variables)` in value_from_ast: which scalars are restricted to the four scalar
+    literal kinds. -> True when a custom scalar with its OWN parse_literal is handed every literal kind
+    (`not isinstance(node, (Int, Float, String, Boolean)) and (type_ in SPECIFIED_SCALAR_TYPES or type_._parse_literal is None)`),
+    False when every scalar is restricted (`not isinstance(node, (...))` alone)."""
+    src = VFA_PY.read_text()
+    tree = ast.parse(src)
+    fn = next((n for n in tree.body if isinstance(n, ast.FunctionDef) and n.name == "value_from_ast"), None)
+    if fn is None:
+        raise Untranslatable("value_from_ast not found")
+    blk = next((st for st in fn.body if isinstance(st, ast.If) and isinstance(st.test, ast.Call) and getattr(st.test.func, "id", None) == "isinstance"
+                and getattr(st.test.args[1], "id", None) == "ScalarType"), None)
+    if blk is None or not isinstance(blk.body[0], ast.If) or not isinstance(blk.body[0].body[0], ast.Raise):
+        raise Untranslatable("value_from_ast: no `if <guard>: raise InvalidValue` at the head of the ScalarType branch")
+    test = blk.body[0].test
+
+    def is_kind_test(t):
+        if not (isinstance(t, ast.UnaryOp) and isinstance(t.op, ast.Not) and isinstance(t.operand, ast.Call)
+                and getattr(t.operand.func, "id", None) == "isinstance" and isinstance(t.operand.args[1], ast.Tuple)):
+            return False
+        names = sorted(getattr(e, "attr", "?") for e in t.operand.args[1].elts)
+        if names != ["BooleanValue", "FloatValue", "IntValue", "StringValue"]:
+            raise Untranslatable("scalar literal kinds in value_from_ast are %s" % names)
+        return True
+    if is_kind_test(test):
+        return False, ast.get_source_segment(src, test)
+    if isinstance(test, ast.BoolOp) and isinstance(test.op, ast.And) and len(test.values) == 2 and is_kind_test(test.values[0]):
+        alt = test.values[1]
+        if isinstance(alt, ast.BoolOp) and isinstance(alt.op, ast.Or) and len(alt.values) == 2:
+            a, b = alt.values
+            ok_a = (isinstance(a, ast.Compare) and isinstance(a.ops[0], ast.In) and getattr(a.comparators[0], "id", None) == "SPECIFIED_SCALAR_TYPES")
+            ok_b = (isinstance(b, ast.Compare) and isinstance(b.ops[0], ast.Is) and isinstance(b.left, ast.Attribute) and b.left.attr == "_parse_literal"
+                    and isinstance(b.comparators[0], ast.Constant) and b.comparators[0].value is None)
+            if ok_a and ok_b:
+                return True, ast.get_source_segment(src, test)
+    raise Untranslatable("value_from_ast: unrecognised guard before parse_literal: " + ast.get_source_segment(src, test)[:120])
+
+
 def extract(ctx):
     consts, accepted, pysrc = int_range_test()
+    any_literal, guard_text = scalar_literal_guard()
     int_rows = dispatch_table("coerce_int")
     guard, guard_src = float_guard()
     table = literal_kind_table()
@@ -341,6 +388,10 @@ def extract(ctx):
         "",
         "/-- `coerce_float`: the `try` around `float(x)` turns OverflowError (an int too large for a double) into ValueError -/",
         "def floatCatchesOverflow : Bool := %s" % ("true" if float_catches_overflow() else "false"),
+        "",
+        "/-- value_from_ast raises InvalidValue before `parse_literal` when `%s`:" % " ".join(guard_text.split()).replace("-/", "- /"),
+        "    a custom scalar that brought its OWN parse_literal is handed every kind of literal (list / object / enum / null inside). -/",
+        "def customOwnParseLiteralTakesAnyLiteral : Bool := %s" % ("true" if any_literal else "false"),
         "",
         "/-- literal kinds admitted by each specified scalar's `parse_literal` (`_typed_coerce(f, *node classes)`) -/",
         "def literalKinds : List (String × List String) := [",
@@ -555,6 +606,9 @@ def custom_scalar(name, impl):
         if out[0] == "refused":
             raise ValueError("%s refuses %r" % (name, v))
         raise SampleScalarBoom(name)             # not ValueError/TypeError: ScalarType.parse lets it through
+
+    if impl == "pos":
+        return ScalarType(name, serialize=lambda v: v, parse=parse)          # NO parse_literal: literals go through parse(node.value)
 
     def parse_literal(node, _variables):
         if impl == "even":
